@@ -8,7 +8,7 @@ from pbt.core import Outcome, Raised, SubCheck, bad, import_dsw, lib_call
 
 PROPERTY = "C07"
 RULE = ("Formula: strands of length 0..300 (quick) / 0..2,000 (thorough) incl. long ascent-rich ones x check lengths "
-        "1..12, compared with an independent implementation of the stated formula. Edits: for each drawn strand of "
+        "1..128 (dense in 1..12), compared with an independent implementation of the stated formula. Edits: for each drawn strand of "
         "length <= 40 ALL single substitutions and ALL single C/G/T insertions and deletions are enumerated; each "
         "neighbour must have a different check and decode(neighbour, vt_check=original) on the complete graph must "
         "raise ValueError. Non-trivial (formula): >= 1 ascent and position sum >= 4^(n-1) (the modulus matters); "
@@ -39,7 +39,8 @@ def strands(draw, max_len):
 @st.composite
 def formula_cases(draw, tier):
     return {"strand": draw(strands(300 if tier == "quick" else 2000)),
-            "n": draw(st.one_of(st.integers(1, 12), st.sampled_from([1, 2, 9, 10, 11, 12])))}
+            "n": draw(st.one_of(st.integers(1, 12), st.sampled_from([1, 2, 9, 10, 11, 12]), st.integers(13, 80),
+                              st.sampled_from([31, 32, 33, 34, 64, 65, 128])))}
 
 
 def evaluate_formula(case):
@@ -49,7 +50,7 @@ def evaluate_formula(case):
     got = lib_call(dsw.set_vt, dna_sequence=strand, vt_length=n)
     vals = [o.NUC.index(c) for c in strand]
     asc = sum(i for i in range(len(vals) - 1) if vals[i] < vals[i + 1])
-    labels = ["n=%d" % n if n in (1, 2) else ("n>=10" if n >= 10 else "n=3..9"),
+    labels = ["n=%d" % n if n in (1, 2) else ("n>=33" if n >= 33 else ("n>=10" if n >= 10 else "n=3..9")),
               "empty" if not strand else ("len=1" if len(strand) == 1 else "len>=2")]
     if asc >= 4 ** (n - 1):
         labels.append("modulus_matters")
@@ -68,7 +69,7 @@ def evaluate_formula(case):
 
 @st.composite
 def edit_cases(draw, tier):
-    return {"strand": draw(strands(40)), "n": draw(st.sampled_from([1, 2, 2, 3, 4, 5, 6, 8, 12]))}
+    return {"strand": draw(strands(40)), "n": draw(st.sampled_from([1, 2, 2, 3, 4, 5, 6, 8, 12, 33, 40]))}
 
 
 def neighbours(strand):
@@ -114,7 +115,7 @@ def evaluate_edits(case):
 
 SUBCHECKS = [
     SubCheck("formula", evaluate_formula, strategy=formula_cases, examples=(6000, 80000), shards=(12, 16),
-             floors={"modulus_matters": 800, "n>=10": 800, "empty": 100, "len=1": 100}, rule=RULE),
+             floors={"modulus_matters": 800, "n>=10": 800, "n>=33": 400, "empty": 100, "len=1": 100}, rule=RULE),
     SubCheck("long_ascents", evaluate_formula,
              enum=(lambda tier: 48 if tier == "quick" else 480,
                    lambda i, tier: {"strand": (["AC", "AG", "CT", "ACGT", "AT", "CG"][i % 6] * 1200)[:
